@@ -34,7 +34,13 @@ def run(ctx):
              "completions incl. completions between send and counter increment), counterexamples of the NEG variants, and "
              "the regression corpus (limits 1..4, 1..3 workers); non-trivial = a quiescent state is observed after some "
              "worker had been marked unavailable")
+    import srvload
+    srvload.run(ctx)
 
 
 def replay(ctx, path):
+    import json as _j
+    if _j.load(open(path))["replay"].get("mode") == "e2e-load":
+        import srvload
+        return srvload.replay(ctx, path)
     srvflow.replay(ctx, path, INV)
